@@ -278,6 +278,7 @@ pub fn src(s: &Src) -> Option<Seq> {
   let done = |items: Vec<V>| Some(Seq { items, t: T::C });
   match s {
     Src::Iter(items) | Src::IntoIter(items) => done(items.iter().map(|n| vi(*n)).collect()),
+    Src::CreatePolling(n) => done((0..*n as i64).map(vi).collect()),
     Src::Create(script) => {
       let ns: Vec<Note> = script.iter().map(|n| n.note()).collect();
       Some(Seq::from_notes(&ns))
